@@ -17,6 +17,30 @@ CLAIMED = {
              "changes the CRC; model tied to the source by regenerated template arguments and a differential run; exhaustive "
              "single/double/burst sweep on the real code as the violation search.",
         design="§4 C09", technique="Coq proof (2^16 register sweeps lifted by induction, GF(2) linearity) + extracted-model differential"),
+    "C17": dict(
+        text="Machine-checked proof (Coq) for every callsign of 1..9 characters over A-Z 0-9 - / . and for every 48-bit address: "
+             "encode = the specification's base-40 address (uint64 never wraps), decode(encode s) = s, injective, broadcast, "
+             "decode total with all indices in range and always NUL-terminated (model = code with fix 766f992, loop bound regenerated "
+             "from the source); tie by regenerated constants and a differential run incl. all callsigns of length 1..3 (1..4 thorough).",
+        design="§4 C17", technique="Coq proof (structural, base-40 numerals) + extracted-model differential"),
+    "C18": dict(
+        text="Machine-checked proof (Coq): the generator is the m-sequence of x^9+x^5+1 (period 511, 256 ones, all states); from "
+             "every unsynced validator state with sync_count <= 9 (new, reset, after unlock; any register, counters, history) and every "
+             "phase: lock within 27 bits on the generator's register; from then on, for error patterns of any length below 25 per 128, "
+             "errors/bits are exact (uint32) and hist_count = popcount(window) (no size_t wrap); unlock exactly at 25; consecutive "
+             "197-bit BERT slices relock with zero errors.  The same lock claim for sync_count up to 17 is refuted in the model (false "
+             "lock, reachable only through non-sequence input) and bounded: true lock within 124 bits after exactly 25 spurious errors.  "
+             "Tie: regenerated constants + differential run observing every validate().",
+        design="§4 C18", technique="Coq proof (sweeps over 512/512^2/512x18 registers lifted by induction; circular-buffer invariant) + extracted-model differential"),
+    "C12": dict(
+        text="Machine-checked proof (Coq) for EVERY binary32 and binary64 datum (finite, infinite, NaN) of the width-4 soft demapper the modem "
+             "instantiates: both soft bits non-zero within +-7; signs = Gray dibit of the nearest 4-FSK level whenever the exact value is farther "
+             "than 1e-6 from 0, +-2; first soft bit antitone; second monotone in |x| on each half-line; saturation at/beyond +-3 and at the ideal "
+             "levels; NaN/inf images. IEEE model computed inside Coq (SpecFloat = Flocq operations, proved), table tied bit-exactly to the "
+             "compile-time C++ table; all 2^32 floats swept on the real code in the thorough tier. Widths 2 and 3 are refuted (known finding F11).",
+        design="§4 C12", technique="Coq proof by order embedding + per-bin vm_compute checks; extracted-model differential; exhaustive C++ sweep",
+        note=PROOF_NOTE + "  One theorem (c12_model_is_flocq_ieee, the bridge to Flocq's Bplus/Bdiv) depends on the standard library's real-number "
+             "axioms sig_forall_dec, sig_not_dec, functional_extensionality_dep, classic; the other 17 are closed under the global context."),
 }
 
 NOT_YET = {}
